@@ -106,6 +106,11 @@ func checkHOTPDerivation(c *Check, w *World, tb *TB, iv *IV, ef *Effects, pfx st
 					tabl[k] = v
 				}
 			}
+			if lt, idx := globalFuncArray(w, ht); idx != nil && idx.String() == roles.Algo && len(tabl) == 0 {
+				for k, v := range lt {
+					tabl[k] = v
+				}
+			}
 		}
 		for k, want := range wantHash {
 			got := tabl[k]
@@ -752,6 +757,50 @@ func localFuncArray(tb *TB, der *ssa.Function, ht *Term) (map[int64]string, *Ter
 			tabl[k] = e.Sym
 		} else {
 			tabl[k] = "?" + clip(e.String(), 60)
+		}
+	}
+	return tabl, idx
+}
+
+// globalFuncArray: ht = G[idx] with G a never-written package-level array literal of functions
+// (hmacHashes = [...]func() hash.Hash{SHA1: sha1.New, …}): index → the function named there, and the index term.
+func globalFuncArray(w *World, ht *Term) (map[int64]string, *Term) {
+	if ht.Op != "index" || len(ht.Args) != 2 || ht.Args[0].Op != "gval" || !strings.HasPrefix(ht.Args[0].Sym, "otp.") {
+		return nil, nil
+	}
+	idx := ht.Args[1]
+	for idx.Op == "conv" && len(idx.Args) == 1 {
+		idx = idx.Args[0]
+	}
+	name := strings.TrimPrefix(ht.Args[0].Sym, "otp.")
+	var g *ssa.Global
+	if sp := w.SPkgs[OtpPath]; sp != nil {
+		g, _ = sp.Members[name].(*ssa.Global)
+	}
+	if g == nil || !w.GlobalNeverWritten(g) {
+		return nil, nil
+	}
+	e, info := w.GlobalInit(OtpPath, name)
+	if e == nil {
+		return nil, nil
+	}
+	lit := EvalLit(e, info)
+	if lit == nil || lit.Kind != "list" {
+		return nil, nil
+	}
+	tabl := map[int64]string{}
+	for i, el := range lit.Elems {
+		switch {
+		case el == nil:
+			// a hole of a keyed literal: the nil function
+		case el.Kind == "ident" && el.Obj != nil:
+			if fo, ok := el.Obj.(*types.Func); ok && fo.Pkg() != nil {
+				tabl[int64(i)] = fo.Pkg().Path() + "." + fo.Name()
+			} else {
+				tabl[int64(i)] = "?" + el.Obj.Name()
+			}
+		default:
+			tabl[int64(i)] = "?" + el.Kind
 		}
 	}
 	return tabl, idx
